@@ -62,6 +62,7 @@ def s_plain_predicates(tier):
         "x": related(ab[0], ab[1]),
         "xkind": st.sampled_from(["py", "py", "np"]),
         "c": related(ab[0], ab[1]), "d": related(ab[0], ab[1]),
+        "via": st.one_of(st.none(), st.none(), st.sampled_from(["end", "start"])),
     }))
 
 
@@ -69,6 +70,16 @@ def check_plain_predicates(r, ctx):
     a, b, x = r["a"], r["b"], r["x"]
     c, d = sorted([r["c"], r["d"]], key=F)
     iv = Interval(a, b)
+    if r.get("via") == "end":      # the same bounds reached through the public setters after a first query
+        iv = Interval(a, a)
+        iv.contains(x), iv.overlaps(Interval(c, d))
+        iv.end = b
+        ctx.label("bounds-via-setter")
+    elif r.get("via") == "start":
+        iv = Interval(b, b)
+        iv.contains(x), iv.overlaps(Interval(c, d))
+        iv.start = a
+        ctx.label("bounds-via-setter")
     xq = wrap_number(r["xkind"], x)
     exp = F(a) <= F(x) <= F(b)
     got = iv.contains(xq)
@@ -202,6 +213,42 @@ def angle_interval():
         build).filter(lambda se: se[1] - se[0] < TWO_PI)
 
 
+VIA = st.one_of(st.none(), st.none(), st.tuples(
+    st.sampled_from(["widen-end", "widen-start", "shrink-end", "shrink-start"]), st.floats(0.05, 0.95)).map(list))
+
+
+def angle_via(s, e, via):
+    """AngleInterval denoting the arc [s, e]; with `via` it reaches these bounds through the public start / end setters
+    after it has already answered a membership query with other bounds."""
+    ai = AngleInterval(s, e)
+    if not via:
+        return ai
+    mode, f = via
+    ns, ne = ai.start, ai.end
+    room = TWO_PI - (ne - ns)
+    if mode == "widen-end":
+        b = AngleInterval(ns, ns + f * (ne - ns))
+    elif mode == "widen-start":
+        b = AngleInterval(ns + f * (ne - ns), ne)
+    elif mode == "shrink-end":
+        b = AngleInterval(ns, min(ne + 0.9 * f * room, TWO_PI))
+    else:
+        b = AngleInterval(max(ns - 0.9 * f * room, -TWO_PI), ne)
+    probe = (ns + ne) / 2
+    b.contains(probe), (probe in b), b.contains(AngleInterval(probe, probe))
+    if mode.endswith("end"):
+        if b.start != ns:
+            return ai
+        b.end = ne
+    else:
+        if b.end != ne:
+            return ai
+        b.start = ns
+    if b.start != ns or b.end != ne:
+        raise Violation("angle-setter-bounds", "after %s: (%r, %r), expected (%r, %r)" % (mode, b.start, b.end, ns, ne))
+    return b
+
+
 def angle_query(se):
     s, e = float(se[0]), float(se[1])
     ln = e - s
@@ -218,7 +265,7 @@ def angle_query(se):
 def s_angle_membership(tier):
     return angle_interval().flatmap(lambda se: st.fixed_dictionaries({
         "se": st.just(se), "th": st.lists(angle_query(se), min_size=1, max_size=6),
-        "np": st.booleans()}))
+        "np": st.booleans(), "via": VIA}))
 
 
 def classify_arc(ctx, s, e):
@@ -235,7 +282,9 @@ def classify_arc(ctx, s, e):
 
 def check_angle_membership(r, ctx):
     s, e = r["se"]
-    ai = AngleInterval(s, e)
+    ai = angle_via(s, e, r.get("via"))
+    if r.get("via"):
+        ctx.label("bounds-via-setter")
     if not (math.isclose(ai.end - ai.start, e - s, abs_tol=1e-12)):
         raise Violation("angle-ctor-length", "AngleInterval(%r,%r) -> (%r,%r)" % (s, e, ai.start, ai.end))
     classify_arc(ctx, s, e)
@@ -283,7 +332,8 @@ def s_angle_contains_interval(tier):
             lambda t: [s + min(t[0], t[1]) * ln + TWO_PI * t[2], s + max(t[0], t[1]) * ln + TWO_PI * t[2]])
         free = angle_interval()
         return st.one_of(sub, free)
-    return angle_interval().flatmap(lambda se: st.fixed_dictionaries({"se": st.just(se), "inner": inner(se)}))
+    return angle_interval().flatmap(lambda se: st.fixed_dictionaries({"se": st.just(se), "inner": inner(se),
+                                                                      "via": VIA}))
 
 
 def check_angle_contains_interval(r, ctx):
@@ -299,8 +349,10 @@ def check_angle_contains_interval(r, ctx):
                 break
         else:
             ctx.discard("inner-not-admissible")
-    outer = AngleInterval(s, e)
+    outer = angle_via(s, e, r.get("via"))
     inner = AngleInterval(c, d)
+    if r.get("via"):
+        ctx.label("bounds-via-setter")
     # truth: every point of the inner arc lies in the outer arc  <=>  some image of [c,d] is inside [s,e]
     best = None
     for k in range(-3, 4):
